@@ -5,7 +5,7 @@ from pyvc import sym, arr
 from pyvc.harness import Unit
 from pyvc.meshmodel import compare_blocks
 from pyvc.sym import SB, SC, SI, SR, check, explore, assume
-from checks import ops_common as oc, c02, c10
+from checks import ops_common as oc, c02, c10, init_common as ic
 
 PROPERTY = "C06"
 LEVEL = "proof"
@@ -245,6 +245,7 @@ def units():
         Unit("set_link_exponents[fix_psi=False]", F + "MeshOperators.set_link_exponents", c10.run_free, props=["C06", "C10"], timeout=900),
         Unit("step_at_pinned_site[terminal_psi=0]", "tdgl.solver.solver:TDGLSolver.solve_for_psi_squared", run_step_zero, props=["C06"], timeout=300),
         Unit("Device.terminal_info", "tdgl.device.device:Device.terminal_info", run_terminal_info, props=["C06"], timeout=300),
+        Unit("TDGLSolver.__init__[two solvers on one mesh]", "tdgl.solver.solver:TDGLSolver.__init__", lambda m=None: ic.run_init(m, prefixes=("C06.",), again=True), props=["C06"], timeout=900),
         Unit("step_at_pinned_site[terminal_psi!=0]", "tdgl.solver.solver:TDGLSolver.solve_for_psi_squared", run_step_nonzero, props=["C06"], timeout=300),
     ]
 
@@ -298,7 +299,37 @@ def replay_scope(unit, obl):
     return (obl or {}).get("name", "") if unit.startswith("step_at_pinned_site") else "unit"
 
 
+def replay_two_solvers(obl):
+    """native: two solves on one device object, terminal_psi None then 0 and the other way round: psi on terminal sites"""
+    import os
+    import tempfile
+    import numpy as np
+    import logging
+    logging.disable(logging.CRITICAL)
+    import tdgl
+    from checks import update_native
+    dev = update_native.device()
+    bad = []
+    sites = np.concatenate([t.site_indices for t in dev.terminal_info()])
+    with tempfile.TemporaryDirectory() as td:
+        for order in ((None, 0.0), (0.0, None)):
+            for j, tp in enumerate(order):
+                o = tdgl.SolverOptions(solve_time=2.0, terminal_psi=tp, output_file=os.path.join(td, f"o{j}.h5"), save_every=50)
+                sol = tdgl.solve(dev, o, applied_vector_potential=0.2, terminal_currents=dict(source=1.0, drain=-1.0))
+                a = np.abs(sol.tdgl_data.psi[sites])
+                if tp is not None and a.max() > 1e-12:
+                    bad.append(dict(what="psi on terminal sites is not the terminal value in a solve that follows a solve with terminal_psi=None on the same device",
+                                    order=[str(x) for x in order], max_abs_psi_on_terminals=float(a.max())))
+                if tp is None and j == 1 and (a.max() > 1.5 or np.allclose(a, a[0]) and a[0] == 0):
+                    bad.append(dict(what="terminal sites do not evolve freely in a solve with terminal_psi=None that follows a pinned solve on the same device",
+                                    order=[str(x) for x in order], max_abs_psi_on_terminals=float(a.max())))
+    logging.disable(logging.NOTSET)
+    return dict(confirmed=bool(bad), failing_history=bad[:2])
+
+
 def replay(unit, obl):
+    if unit.startswith("TDGLSolver.__init__"):
+        return replay_two_solvers(obl)
     if unit == "Device.terminal_info":
         return replay_terminal_info(obl)
     if unit.startswith("step_at_pinned_site"):
